@@ -496,7 +496,8 @@ with p_type_name (fuel: nat) : M node :=
                      end
            end) ;;
     let tn := mkN C_Typename [VStr []; vstrs P (s_qual P spec); VNone; opt_or_empty_typedecl decl] co in
-    fix_decl_name_type P (WF) tn (s_type P spec)
+    fixed <- fix_decl_name_type P (WF) tn (s_type P spec) ;;
+    fix_atomic_specifiers P (WF) fixed
   end
 with p_spec_loop (fuel: nat) (decl_mode: bool) (st: specst) : M specst :=
   (* common loop of _parse_declaration_specifiers (decl_mode) and _parse_specifier_qualifier_list *)
@@ -934,7 +935,8 @@ with p_build_parameter_declaration (fuel: nat) (spec: dspec) (decl: option node)
       match ds with x :: _ => ret x | [] => crash CK_Index end
     else
       let tn := mkN C_Typename [VStr []; vstrs P (s_qual P spec); VNone; opt_or_empty_typedecl decl] spec_coord in
-      fix_decl_name_type P (WF) tn ty
+      fixed <- fix_decl_name_type P (WF) tn ty ;;
+      fix_atomic_specifiers P (WF) fixed
   end
 with p_identifier_list (fuel: nat) : M node :=
   match fuel with O => oof | S f =>
